@@ -2,8 +2,11 @@ CONSTANTS
   MaxChildren = 2
   MaxTemps = 2
   QMax = 10
-  MaxPending = 2
+  MaxPending = 1
+  CfgSet <- ListenCfgs
+  Hows <- FewHows
 SPECIFICATION SpecDev
+VIEW NoOut
 INVARIANTS TypeOK Restored DevBounded ExitAlwaysPossible OnlyConfigured
 CONSTRAINT PendingBound
 CHECK_DEADLOCK FALSE
